@@ -1506,6 +1506,17 @@ class Controller:
         '''
         self._send_hci_command_status(hci.HCI_ErrorCode.SUCCESS, command.op_code)
 
+        if self.link and not self.link.find_classic_controller(command.bd_addr):
+            # Nobody answers at that address: the procedure ends with a page timeout
+            self.send_hci_packet(
+                hci.HCI_Remote_Name_Request_Complete_Event(
+                    status=hci.HCI_ErrorCode.PAGE_TIMEOUT_ERROR,
+                    bd_addr=command.bd_addr,
+                    remote_name=b'',
+                )
+            )
+            return None
+
         self.send_lmp_packet(command.bd_addr, lmp.LmpNameReq(0))
 
         return None
